@@ -223,7 +223,28 @@ func mutateBytes(r *rand.Rand, b []byte) []byte {
 			return []byte{byte(r.Intn(256))}
 		}
 		i := r.Intn(len(b))
-		switch r.Intn(7) {
+		switch r.Intn(9) {
+		case 7, 8:
+			// damage a string literal: drop one of its quotes, or break the line inside it
+			var qs []int
+			for j, c := range b {
+				if c == '"' || c == '`' {
+					qs = append(qs, j)
+				}
+			}
+			if len(qs) == 0 {
+				break
+			}
+			j := qs[r.Intn(len(qs))]
+			if r.Intn(2) == 0 {
+				b = append(b[:j], b[j+1:]...)
+			} else {
+				at := j + 1 + r.Intn(4)
+				if at > len(b) {
+					at = len(b)
+				}
+				b = append(b[:at], append([]byte("\n"), b[at:]...)...)
+			}
 		case 0:
 			b = b[:i]
 		case 1:
